@@ -99,6 +99,7 @@ pub fn group(kind: &str) -> &str {
 /// all, a deleted sheet comes back without its links): one coarse class per group. Their own
 /// properties (C12-C16, C31, C33) examine them in detail.
 fn coarse(group: &str) -> bool {
+    let group = group.strip_prefix("undo-of-").or_else(|| group.strip_prefix("redo-of-")).unwrap_or(group);
     matches!(group, "structural" | "delete_sheet" | "copy_paste" | "cut_paste" | "paste_csv" | "auto_fill_rows" | "auto_fill_columns"
         | "rename_sheet" | "array_formula" | "input-array")
 }
@@ -480,6 +481,8 @@ pub fn run_c03(a: &Args) {
         let mut failed_classes: Vec<String> = vec![];
         let mut ev: Vec<String> = vec![];
         let mut cuts: Vec<String> = vec![];
+        let mut undo_kinds: Vec<String> = vec![];
+        let mut redo_kinds: Vec<String> = vec![];
         let len = rng.range(6, maxl as i64);
         st.histories += 1;
         let mut bad = false;
@@ -505,6 +508,13 @@ pub fn run_c03(a: &Args) {
                 break;
             }
             ev.push(match op { Op::Undo => "u".into(), Op::Redo => "r".into(), _ => if d1.0 == d0.0 + 1 { "d".to_string() } else { "n".to_string() } });
+            // which operation an undo / redo event concerns (classes name the operation, not the event)
+            let k_eff: String = match op {
+                Op::Undo => match undo_kinds.pop() { Some(k0) => { redo_kinds.push(k0.clone()); format!("undo-of-{}", group(&k0)) } None => "undo-on-empty".to_string() },
+                Op::Redo => match redo_kinds.pop() { Some(k0) => { undo_kinds.push(k0.clone()); format!("redo-of-{}", group(&k0)) } None => "redo-on-empty".to_string() },
+                _ => { if d1.0 == d0.0 + 1 { undo_kinds.push(k.to_string()); redo_kinds.clear(); } k.to_string() }
+            };
+            let k = k_eff.as_str();
             // schedule 1: flush after every step
             let q = p.flush_send_queue();
             all_batches_end.push(q.clone());
@@ -750,6 +760,12 @@ pub fn invalid_matrix() -> Vec<(String, Op)> {
     add("bad-sheet", Op::AddCf { sheet: bad_sheet, range: "A1:A3".into(), json: "{\"type\":\"Blanks\",\"format\":{\"font\":null,\"fill\":null,\"border\":null,\"num_fmt\":null,\"alignment\":null},\"stop_if_true\":false}".into() });
     add("bad-range", Op::AddCf { sheet: 0, range: "notarange".into(), json: "{\"type\":\"Blanks\",\"format\":{\"font\":null,\"fill\":null,\"border\":null,\"num_fmt\":null,\"alignment\":null},\"stop_if_true\":false}".into() });
     add("bad-index", Op::DeleteCf { sheet: 0, index: 99 });
+    add("bad-index", Op::UpdateCf { sheet: 0, index: 99, range: "A1:A3".into(), json: "{\"type\":\"Blanks\",\"format\":{\"font\":null,\"fill\":null,\"border\":null,\"num_fmt\":null,\"alignment\":null},\"stop_if_true\":false}".into() });
+    add("bad-range", Op::UpdateCf { sheet: 0, index: 0, range: "notarange".into(), json: "{\"type\":\"Blanks\",\"format\":{\"font\":null,\"fill\":null,\"border\":null,\"num_fmt\":null,\"alignment\":null},\"stop_if_true\":false}".into() });
+    add("bad-sheet", Op::UpdateCf { sheet: 57, index: 0, range: "A1:A3".into(), json: "{\"type\":\"Blanks\",\"format\":{\"font\":null,\"fill\":null,\"border\":null,\"num_fmt\":null,\"alignment\":null},\"stop_if_true\":false}".into() });
+    add("bad-index", Op::CfPriority { sheet: 0, index: 99, raise: true });
+    add("bad-index", Op::CfPriority { sheet: 0, index: 99, raise: false });
+    add("bad-sheet", Op::CfPriority { sheet: 57, index: 0, raise: true });
     add("bad-sheet", Op::CopyPaste { src: a_ok, dst_sheet: bad_sheet, dst_row: 1, dst_col: 1, cut: false });
     add("off-grid-target", Op::CopyPaste { src: a_ok, dst_sheet: 0, dst_row: 1_048_576, dst_col: 16384, cut: false });
     add("off-grid-target", Op::CopyPaste { src: a_ok, dst_sheet: 0, dst_row: 1_048_576, dst_col: 16384, cut: true });
